@@ -70,6 +70,45 @@ theorem C08_index_expressions :
       f.subscripts == expectedSubscripts && (f.loops == expectedLoops || f.loops == expectedLoopsNdim)) = true := by
   decide
 
+/-- barycenter update: the buffer sized as the maximum over all series of the compact length suffices
+for every series of the collection … -/
+theorem C08_dba_wps_size (t window : Nat) (lens : List Nat) (l : Nat) (hl : l ∈ lens) :
+    (wpsParts t l window).length ≤ (lens.map fun x => (wpsParts t x window).length).foldl max 0 := by
+  have key : ∀ (xs : List Nat) (a : Nat), a ≤ xs.foldl max a ∧ ∀ y ∈ xs, y ≤ xs.foldl max a := by
+    intro xs
+    induction xs with
+    | nil => intro a; simp
+    | cons x xs ih =>
+      intro a
+      obtain ⟨h1, h2⟩ := ih (max a x)
+      refine ⟨le_trans (Nat.le_max_left a x) h1, ?_⟩
+      intro y hy
+      rcases List.mem_cons.mp hy with rfl | hm
+      · exact le_trans (Nat.le_max_right a y) h1
+      · exact h2 y hm
+  exact (key _ 0).2 _ (List.mem_map.mpr ⟨l, hl, rfl⟩)
+
+/-- … while sizing it for the longest (or the longest and the shortest) series only does not: the
+compact length is not monotone in the series length -/
+theorem C08_dba_wps_not_monotone :
+    (wpsParts 10 10 1).length < (wpsParts 10 6 1).length ∧ (wpsParts 10 2 1).length < (wpsParts 10 6 1).length := by
+  decide
+
+/-- the allocation logic extracted from `dtw_dba_ptrs` / `dtw_dba_matrix` is the transcribed one
+(maximum over all series; index arrays of `max_length + t` entries) -/
+theorem C08_dba_alloc : dbaAllocs =
+    [{ name := "dtw_dba_ptrs",
+       mallocs := ["t * ndim * sizeof(seq_t)", "t * sizeof(idx_t)", "(max_length + t) * sizeof(idx_t)",
+                   "(max_length + t) * sizeof(idx_t)", "wps_length * sizeof(seq_t)"],
+       sizes := ["max_length = 0", "max_length = lengths[r_idx]", "wps_length = 0",
+                 "cur_wps_length = dtw_settings_wps_length(t, lengths[r_idx], settings)",
+                 "wps_length = cur_wps_length"] },
+     { name := "dtw_dba_matrix",
+       mallocs := ["t * ndim * sizeof(seq_t)", "t * sizeof(idx_t)", "(nb_cols + t) * sizeof(idx_t)",
+                   "(nb_cols + t) * sizeof(idx_t)", "wps_length * sizeof(seq_t)"],
+       sizes := ["wps_length = dtw_settings_wps_length(t, nb_cols, settings)"] }] := by
+  decide
+
 /- non-vacuity: a concrete narrow-window configuration -/
 example : (⟨9, 9, 2⟩ : Roll).length = 5 ∧ (⟨9, 9, 2⟩ : Roll).skip 8 = 7 ∧ (⟨9, 9, 2⟩ : Roll).minj 8 = 9 := by decide
 
